@@ -54,6 +54,10 @@ func VerifC10Ops() {
 		tok := "-"
 		if i >= 0 {
 			tok = strconv.Itoa(i)
+			if vParam("SPELL", 0) == 1 {
+				// spellings that RFC 6901 does not accept as array indices
+				tok = [...]string{"", "0", "+", "-", "00"}[vChoice(5)] + tok
+			}
 		}
 		v := vF64()
 		path := prefix + "/" + tok
